@@ -209,7 +209,7 @@ def run_unit(name, tier='quick', variant=None, keep=True):
         # WATCH: functions the unit only ASSUMES a contract for (reviewed text): their fingerprints are part of the registration
         R.watch = {}
         from .assemble import source as _src, fingerprint as _fp, DEFAULT_FEATURES as _DF
-        for (wf, wpath) in getattr(unit, 'WATCH', []):
+        for (wf, wpath) in list(getattr(unit, 'WATCH', [])) + list(getattr(unit, 'UNCOVERED', [])):
             sf = _src(wf)
             first, last = sf.find(wpath, getattr(unit, 'FEATURES', _DF))
             R.watch[f'{wf}:{wpath}'] = _fp(sf.item_tokens(first, last))
